@@ -524,3 +524,26 @@ pub fn run_sim(scenario: &Arc<Scenario>, sched: &SchedSpec, replay: Option<Trace
         },
     }
 }
+
+/// Execute a scenario's first block through the real public API OUTSIDE the simulator on one of the
+/// sequential entry points (`execute()` with `force_sequential`, or `fallback_sequential()`): no thread
+/// is spawned on these paths, so no schedule exists to control.
+pub fn run_direct(scenario: &Scenario, use_fallback_entry: bool) -> (CallResult, Vec<TxExecutionOutcome>, ParallelState<Arc<SimDb>>, Arc<SimDb>) {
+    assert!(!rt::in_sim());
+    let db = Arc::new(SimDb::from_scenario(scenario, true, false));
+    let precompile_log = Arc::new(PrecompileLog::default());
+    let pcs = precompiles::build(&scenario.precompiles, &precompile_log);
+    let pcs_arc = (!pcs.is_empty()).then(|| Arc::new(pcs));
+    let state = new_parallel_state(scenario, Arc::clone(&db));
+    let txs = Arc::new(scenario.txs.iter().map(make_tx).collect::<Vec<_>>());
+    let mut config = grevm_config(scenario);
+    if !use_fallback_entry {
+        config.force_sequential = true;
+    }
+    let scheduler =
+        Scheduler::new_with_runtime_config(make_cfg(&scenario.evm), make_block(&scenario.block), txs, state, pcs_arc, config);
+    let entry = if use_fallback_entry { Entry::FallbackSequential } else { Entry::Execute };
+    let call = do_call(&scheduler, 0, &entry);
+    let (outcomes, state) = scheduler.take_result_and_state();
+    (call, outcomes, state, db)
+}
